@@ -369,6 +369,15 @@ def judge(ctx, case, run, spec_lines, pending):
         if key is None:
             key = case.options.get("header", {}).get("Sec-WebSocket-Key", "") if isinstance(case.options.get("header"), dict) else ""
         if parsed is None:
+            # whatever the code made of an ungrammatical head, two things hold of the bytes AS SENT: the head ends with a blank
+            # line, and the status token of its first line is exactly "101"
+            if not re.search(rb"\r?\n\r?\n", raw) and not re.search(rb"\n[ \t\r\x0b\x0c\x1c-\x1f]*\n", raw):
+                ctx.violate("established", "head-not-terminated", inp, "raise: the response head never ended (no blank line)", run.obs, size)
+            else:
+                toks = raw.split(b"\n", 1)[0].split(b" ")
+                tok = toks[1].strip() if len(toks) > 1 else b""
+                if tok.isdigit() and tok.isascii() and len(tok.lstrip(b"0")) > 3:
+                    ctx.violate("status-101", f"status-{tok[:6].decode()}", inp, "raise: the status code is not 101", run.obs, size)
             # bytes that are not UTF-8 on the line of a validated header: whatever the code made of them, the field as
             # sent cannot carry the required value
             m = re.search(rb"\r?\n\r?\n", raw)
